@@ -12,6 +12,9 @@ use super::{Example, Rule};
 use crate::api::redirection_loop::RedirectionLoop;
 use crate::api::rules_message::RuleChangeSet;
 use crate::router::Route;
+#[cfg(kani)]
+use crate::verif_shim::ordered_set::LinkedHashSet;
+#[cfg(not(kani))]
 use linked_hash_set::LinkedHashSet;
 use serde::{Deserialize, Serialize};
 
